@@ -8,8 +8,8 @@ import (
 	"sync"
 	"time"
 
-	"github.com/KevoDB/kevo/pkg/engine/interfaces"
 	"github.com/KevoDB/kevo/pkg/engine"
+	"github.com/KevoDB/kevo/pkg/engine/interfaces"
 	"github.com/KevoDB/kevo/pkg/transaction"
 	"github.com/KevoDB/kevo/pkg/verifhook"
 	pb "github.com/KevoDB/kevo/proto/kevo"
